@@ -173,6 +173,120 @@ func checkC27(c *Ctx, r *Report) {
 		mergeLoopComplete(m, r, ff, "kmsg.FetchResponseTopicPartition", pkgProxy+".addFetchErrorForAllPartitions")
 	}
 
+	// ---- the regrouping filter itself (shared by first attempt: include == nil, and retries)
+	for _, gspec := range []struct{ fn, elem string }{
+		{"(*proxy).groupPartitionsByBroker", "kmsg.ProduceRequestTopicPartition"},
+		{"(*proxy).groupFetchPartitionsByBroker", "kmsg.FetchRequestTopicPartition"},
+	} {
+		gp := needFn(m, r, "C27.R1", pkgProxy, gspec.fn)
+		if gp == nil {
+			continue
+		}
+		gname := gp.Name()
+		include := gp.Params[3]
+		// L = include[topic]
+		var inner []ssa.Value
+		for _, b := range gp.Blocks {
+			for _, in := range b.Instrs {
+				if lk, ok := in.(*ssa.Lookup); ok && strip(lk.X) == ssa.Value(include) {
+					inner = append(inner, lk)
+				}
+			}
+		}
+		isInner := func(v ssa.Value) bool {
+			for _, o := range origins(v) {
+				for _, l := range inner {
+					if strip(o) == l {
+						return true
+					}
+				}
+			}
+			return false
+		}
+		onlyNilOrInner := func(v ssa.Value) bool {
+			os := origins(v)
+			if len(os) == 0 {
+				return false
+			}
+			for _, o := range os {
+				if isNilConst(o) {
+					continue
+				}
+				okI := false
+				for _, l := range inner {
+					if strip(o) == l {
+						okI = true
+					}
+				}
+				if !okI {
+					return false
+				}
+			}
+			return true
+		}
+		noFilter := atomFn("include == nil (first attempt: everything is sent once)", func(l Lit) bool {
+			return l.Op == token.EQL && isNilConst(l.Y) && strip(l.X) == ssa.Value(include)
+		})
+		member := atomFn("include[topic][partition] is set", func(l Lit) bool {
+			if l.Op != token.ILLEGAL || l.Neg {
+				return false
+			}
+			lk, ok := strip(l.X).(*ssa.Lookup)
+			if !ok {
+				return false
+			}
+			_, f, _, okf := fieldOf(lk.Index)
+			return okf && f == "Partition" && onlyNilOrInner(lk.X)
+		})
+		innerNil := atomFn("per-topic set == nil (only when include == nil or the topic is absent, which is skipped)", func(l Lit) bool {
+			return l.Op == token.EQL && isNilConst(l.Y) && onlyNilOrInner(l.X)
+		})
+		n := 0
+		for _, site := range appendSitesT(gp, gspec.elem) {
+			n++
+			guardVerdict(m, r, "C27.R1", gname+": with a retry set, a partition is regrouped only if it is in the set", gp, site.Call,
+				Guard{cl(noFilter, member, innerNil)})
+		}
+		if n == 0 {
+			r.unresolved("C27.R1", gname+" partition append", "not found")
+		}
+		// a topic absent from the retry set contributes nothing: the empty-inner-set test skips the topic
+		okSkip := false
+		for _, b := range gp.Blocks {
+			ifi, ok := b.Instrs[len(b.Instrs)-1].(*ssa.If)
+			if !ok {
+				continue
+			}
+			l := litOf(ifi.Cond, true)
+			isEmptyTest := false
+			if l.Op == token.EQL {
+				if k, okk := constInt(l.Y); okk && k == 0 {
+					if lc, okc := strip(l.X).(*ssa.Call); okc && calleeName(&lc.Call) == "builtin.len" && isInner(lc.Call.Args[0]) {
+						isEmptyTest = true
+					}
+				}
+				if isNilConst(l.Y) && isInner(l.X) && !isNilConstInOrigins(l.X) {
+					isEmptyTest = true
+				}
+			}
+			if !isEmptyTest {
+				continue
+			}
+			// from the "empty" edge no partition append is reachable before the topic loop advances
+			found, _, _ := search(SearchSpec{Start: Loc{b.Succs[0], 0},
+				Target:  func(in ssa.Instruction) bool { return isAppendOf(in, gspec.elem) },
+				Blocker: func(in ssa.Instruction) bool { return in.Block().Comment == "rangeindex.loop" && in.Block().Dominates(b) }})
+			if !found {
+				okSkip = true
+			}
+		}
+		if okSkip {
+			r.ok("C27.R1", gname+": a topic absent from the retry set is skipped entirely", m.Pos(gp.Pos()), "")
+		} else {
+			r.viol("C27.R1", gname+": a topic absent from the retry set is skipped entirely", m.Pos(gp.Pos()), "no empty-set test on include[topic] that skips the topic: a topic without failed partitions gets a nil filter and is re-sent in full (its records are written twice)")
+		}
+	}
+
 	// ---- sends
 	for _, spec := range []struct{ fn, send, what string }{
 		{"(*proxy).fanOutProduce", pPrefix + "forwardToBackend", "forwardToBackend"},
@@ -463,4 +577,13 @@ func blockPosFull(m *Module, b *ssa.BasicBlock) string {
 		}
 	}
 	return "?"
+}
+
+func isNilConstInOrigins(v ssa.Value) bool {
+	for _, o := range origins(v) {
+		if isNilConst(o) {
+			return true
+		}
+	}
+	return false
 }
